@@ -47,6 +47,9 @@ class Canon:
             return [self.value(x) for x in v]
         if isinstance(v, dict):
             return sorted((str(k), self.value(x)) for k, x in v.items())
+        if isinstance(v, (set, frozenset)):
+            # iteration order of a set is not preserved by deepcopy
+            return ['set'] + sorted((self.value(x) for x in v), key=repr)
         if hasattr(v, 'name') and hasattr(v, 'value') and type(v).__module__ != 'builtins' \
                 and isinstance(getattr(type(v), '__members__', None), object) \
                 and hasattr(type(v), '__members__'):
